@@ -120,16 +120,20 @@ fn c07_input_hostile_used() {
 // @harness props=C09 tier=quick timeout=2400
 #[kani::proof]
 #[kani::unwind(50)]
-fn c09_input_fail_k() {
+fn c09_input_fail_k3() { input_fail_body(3) }
+
+// @harness props=C09 tier=thorough timeout=2400
+#[kani::proof]
+#[kani::unwind(50)]
+fn c09_input_fail_k1() { input_fail_body(1) }
+
+fn input_fail_body(k: usize) {
     lg_init_concrete();
     let t = mt::<InDev>(DeviceType::Input, 1 << 32);
-    let k: usize = kani::any();
-    kani::assume(k >= 1 && k <= 4);
     unsafe { DMA_FAIL_AT = k; }
     match VirtIOInput::<THal<N>, MT<InDev>>::new(t) {
         Err(e) => check_failed_new(e),
         Ok(_) => assert!(false, "C09: construction succeeded although an allocation failed"),
     }
-    kani::cover!(k == 1);
-    kani::cover!(k == 4);
+    kani::cover!(unsafe { DMA_CALLS } == k);
 }
